@@ -88,6 +88,10 @@ func c03Run(f []string) string {
 	switch f[0] {
 	case "reduce":
 		return c03ReduceRun(f)
+	case "analyze":
+		return c03AnalyzeRun(f)
+	case "analyze-spec":
+		return c03AnalyzeSpecRun(f)
 	case "csv":
 		rows := c03DecRows(f[1])
 		var b c03Buf
@@ -249,6 +253,10 @@ func c03Gen(r *Rand, tier string) []string {
 	}
 	for i := 0; i < nReduce; i++ {
 		out = append(out, c03ReduceCase(r))
+		out = append(out, c03AnalyzeCase(r))
+		if i%4 == 0 {
+			out = append(out, c03AnalyzeSpecCase(r))
+		}
 	}
 	for i := 0; i < n; i++ {
 		out = append(out, "csv "+c03EncRows(c03Rows(r)))
@@ -294,6 +302,15 @@ func c03Stats(cases []string) map[string]int {
 		switch f[0] {
 		case "reduce":
 			c03ReduceStats(f, st)
+		case "analyze":
+			st["op.analyze"]++
+			fl, _ := strconv.Atoi(f[1])
+			if fl&1 != 0 {
+				st["analyze.extra"]++
+			}
+			st["analyze.samples"] += len(UnHexListS(f[4]))
+		case "analyze-spec":
+			st["op.analyzeSpec"]++
 		case "csv":
 			st["op.csv"]++
 			rows := c03DecRows(f[1])
@@ -357,5 +374,5 @@ var c03Corpus = []string{
 }
 
 func init() {
-	Register("C03", &Prop{Gen: c03Gen, Run: c03Run, Stats: c03Stats, Corpus: append(append([]string{}, c03Corpus...), c03ReduceCorpus...)})
+	Register("C03", &Prop{Gen: c03Gen, Run: c03Run, Stats: c03Stats, Corpus: append(append(append([]string{}, c03Corpus...), c03ReduceCorpus...), c03AnalyzeCorpus...)})
 }
